@@ -13,30 +13,32 @@ import (
 // World is one simulated universe: real collections, the reference model, the scheduler
 // and the oracles' bookkeeping.
 type World struct {
-	cs        *Case
-	sim       *Sim
-	primary   *column.Collection
-	model     *Model
-	viol      *Violation
-	incon     string // run ended inconclusive (deadlock/hang outside C18, step cap)
-	stats     *RunStats
-	txns      map[int]*MTxn // in-flight transaction per simulated thread (0 = single client)
-	tap       *Tap
-	colls     []*column.Collection
-	inserts   map[int][]uint32 // offsets inserted by the thread's current transaction (Target mode "mine")
-	trig      *trigLog
-	seq       uint64                                                                   // global event sequence number
-	hookFn    func(c *column.Collection, latch *smutex.SMutex128, p uint8, arg uint32) // extra per-world hook bookkeeping
-	conc      *concState
-	ttl       *ttlState
-	raceSched []int16                                                     // schedule taken by the race-mode scheduler
-	extra     []*Violation                                                // further race reports of the same run
-	readyFn   func(c *column.Collection, p uint8, arg uint32) func() bool // extra enabledness condition for the parking thread
-	reserves  map[int]int                                                 // number of offsets reserved so far, per thread
-	avoid     map[string]bool                                             // known-finding triggers this run steers around (Case.Cfg.Avoid)
-	triggered map[string]bool                                             // known-finding trigger situations that occurred in this run
-	touched   []uint32                                                    // offsets touched by the last transaction (sampled dumps)
-	taint     bool                                                        // goroutines or latches may have been left behind (panic, deadlock, hang)
+	cs          *Case
+	sim         *Sim
+	primary     *column.Collection
+	model       *Model
+	viol        *Violation
+	incon       string // run ended inconclusive (deadlock/hang outside C18, step cap)
+	stats       *RunStats
+	txns        map[int]*MTxn // in-flight transaction per simulated thread (0 = single client)
+	tap         *Tap
+	colls       []*column.Collection
+	inserts     map[int][]uint32 // offsets inserted by the thread's current transaction (Target mode "mine")
+	trig        *trigLog
+	seq         uint64                                                                   // global event sequence number
+	hookFn      func(c *column.Collection, latch *smutex.SMutex128, p uint8, arg uint32) // extra per-world hook bookkeeping
+	conc        *concState
+	ttl         *ttlState
+	mergeYields bool                                                        // user merge functions yield to the scheduler (see mergeYield)
+	capFor      map[int]*filterCapture                                      // per thread: filter chain being captured (C04 part B)
+	raceSched   []int16                                                     // schedule taken by the race-mode scheduler
+	extra       []*Violation                                                // further race reports of the same run
+	readyFn     func(c *column.Collection, p uint8, arg uint32) func() bool // extra enabledness condition for the parking thread
+	reserves    map[int]int                                                 // number of offsets reserved so far, per thread
+	avoid       map[string]bool                                             // known-finding triggers this run steers around (Case.Cfg.Avoid)
+	triggered   map[string]bool                                             // known-finding trigger situations that occurred in this run
+	touched     []uint32                                                    // offsets touched by the last transaction (sampled dumps)
+	taint       bool                                                        // goroutines or latches may have been left behind (panic, deadlock, hang)
 }
 
 func (w *World) taintedHard() bool { return false }
@@ -133,6 +135,9 @@ func (w *World) onHook(c *column.Collection, latch *smutex.SMutex128, p uint8, a
 			}
 		}
 	}
+	if dbgHook != nil {
+		dbgHook(w, p, arg)
+	}
 	if w.hookFn != nil {
 		w.hookFn(c, latch, p, arg)
 	}
@@ -145,7 +150,13 @@ func (w *World) onHook(c *column.Collection, latch *smutex.SMutex128, p uint8, a
 		if w.readyFn != nil {
 			pt.Ready = w.readyFn(c, p, arg)
 		}
+		tid := s.cur.ID
 		s.park(pt)
+		if fc := w.capFor[tid]; fc != nil && fc.active && p == uint8(column.SimBeforeRLock) && c == w.primary {
+			// released: from here to the next hook the library works on this block under its read
+			// latch; what it can see of the block is the model's committed state right now
+			fc.add(w.model, arg)
+		}
 	}
 }
 
@@ -402,3 +413,5 @@ func maxU32(a, b uint32) uint32 {
 	}
 	return b
 }
+
+var dbgHook func(w *World, p uint8, arg uint32)
